@@ -96,3 +96,8 @@ CHECKS.update({
     "C24": ("6/C24", "Every sequence (length <=3; <=4 on the in-memory stores in the thorough tier) over 22 operations {upserts of 3 handlers with each status, re-run of a handler id under a new run id, update_handler_status by run id (status / idle_since set / cleared / unknown run), 6 deletes incl. an empty-list filter} on MemoryWorkflowStore(max_completed None/0/1/2) and SqliteWorkflowStore (DB file); retained set checked after every step against the retention rule, delete counts compared, and after each sequence all 432 filter combinations (reduced set on SQLite beyond length 2) compared with a dict reference.",
             "Both readings of 'most recently completed' are admitted. A delete without any filter is outside the statement and not exercised (the two stores differ there: memory deletes everything, SQLite nothing). Fix recorded for the duplicate terminal-queue entries this check found.", ENUM_TECH),
 })
+
+CHECKS.update({
+    "C16": ("6/C16", "Store level: logs of 2-4 events with a StopEvent at every position (or none) appended at explorer-chosen points x 1-2 subscribers with every cursor -1..n+1 started at explorer-chosen points and pulling one item at a time (slow consumers suspended mid-batch) x poll-timer firings on SQLite - all interleavings on the real MemoryWorkflowStore and SqliteWorkflowStore (DB file). API level: the real _WorkflowAPI._stream_events / _resolve_event_stream over a real store with after_sequence now / -1..n, Last-Event-ID, include_internal on/off, 0..n events present at request time, and disconnect-after-k + reconnect; yielded sequences / SSE ids compared with 'everything above the cursor up to and including the first terminal event, once, in order'.",
+            "Poll-timer firings bounded to 2 per execution (polling is cyclic). The starlette transport is replaced by a data-holder stand-in (handlers are called directly). Fix 32b4302 repaired the Memory-store cursor defect this check found.", SCHED_TECH),
+})
